@@ -36,7 +36,8 @@ type srcSet struct {
 	bind map[*ssa.Parameter]ssa.Value
 	amb  map[*ssa.Parameter]bool
 	// calls whose arguments are not followed
-	opaque map[string]bool
+	opaque  map[string]bool
+	wantIdx map[*ssa.Call]map[int]bool // results of a call that were asked for (by index)
 }
 
 // resolve: a parameter of an entered helper stands for the argument it was called with.
@@ -114,7 +115,11 @@ func backward(v ssa.Value, s *srcSet, seen map[ssa.Value]bool) {
 						continue
 					}
 					if ret, ok := b.Instrs[len(b.Instrs)-1].(*ssa.Return); ok {
-						for _, rv := range ret.Results {
+						for ri, rv := range ret.Results {
+							// only the results that are asked for (the content, not the error that came with it)
+							if want, restricted := s.wantIdx[x]; restricted && !want[ri] {
+								continue
+							}
 							backward(rv, s, seen)
 						}
 					}
@@ -139,6 +144,18 @@ func backward(v ssa.Value, s *srcSet, seen map[ssa.Value]bool) {
 			backward(a, s, seen)
 		}
 	case *ssa.Extract:
+		if c, ok := x.Tuple.(*ssa.Call); ok {
+			if s.wantIdx == nil {
+				s.wantIdx = map[*ssa.Call]map[int]bool{}
+			}
+			if s.wantIdx[c] == nil {
+				s.wantIdx[c] = map[int]bool{}
+			}
+			if !s.wantIdx[c][x.Index] {
+				s.wantIdx[c][x.Index] = true
+				delete(seen, ssa.Value(c)) // followed again for the result that is new
+			}
+		}
 		backward(x.Tuple, s, seen)
 	case *ssa.Phi:
 		for _, e := range x.Edges {
